@@ -1,5 +1,5 @@
 (* The Python built-ins the translated functions use, as Gallina functions over Z and list Z (the assumed semantics of tools/translate.py). *)
-From Coq Require Import ZArith List Bool.
+From Coq Require Import ZArith NArith List Bool.
 Import ListNotations.
 Open Scope Z_scope.
 Definition py_len (l : list Z) : Z := Z.of_nat (length l).
@@ -10,3 +10,6 @@ Definition py_sorted (l : list Z) : list Z := fold_right py_insert [] l.
 Definition py_is_empty (l : list Z) : bool := match l with [] => true | _ => false end.
 Definition py_range (n : Z) : list Z := map Z.of_nat (seq 0 (Z.to_nat n)).
 Definition py_index (l : list Z) (i : Z) : Z := nth (Z.to_nat i) l 0.     (* only used with 0 <= i < len l *)
+(* str: the list of code points; == on str is equality of these lists *)
+Definition pystr := list N.
+Fixpoint py_str_eqb (a b : pystr) : bool := match a, b with [], [] => true | x :: a', y :: b' => (x =? y)%N && py_str_eqb a' b' | _, _ => false end.
